@@ -84,6 +84,12 @@ theorem ax_pw_prod : (∀ (a : ℝ) (b : ℝ) (x : ℝ), ((((0 : ℝ) < a) ∧ (
 
 theorem ax_pw_pos : (∀ (a : ℝ) (x : ℝ), (((0 : ℝ) < a) → ((0 : ℝ) < (Real.rpow (a) (x))))) := by intro a x h; exact Real.rpow_pos_of_pos h x
 
+theorem ax_exp_log : (∀ (x : ℝ), (((0 : ℝ) < x) → ((Real.exp ((Real.log (x)))) = x))) := by intro x h; exact Real.exp_log h
+
+theorem ax_log_exp : (∀ (x : ℝ), ((Real.log ((Real.exp (x)))) = x)) := by intro x; exact Real.log_exp x
+
+theorem ax_exp_pos : (∀ (x : ℝ), ((0 : ℝ) < (Real.exp (x)))) := by intro x; exact Real.exp_pos x
+
 theorem ax_facdiff_def : (∀ (P : Finset K) (u : K → ℝ) (Q : Finset K) (v : K → ℝ) (R : Finset K) (w : K → ℝ), (((∀ (k : K), ((w k) = ((u k) - (v k)))) ∧ (∀ (k : K), ((¬ (k ∈ R)) → ((w k) = (0 : ℝ)))) ∧ (∀ (k : K), ((¬ (k ∈ P)) → ((u k) = (0 : ℝ)))) ∧ (∀ (k : K), ((¬ (k ∈ Q)) → ((v k) = (0 : ℝ)))) ∧ (∀ (k : K), ((0 : ℝ) < (f1 (k))))) → ((FacS f1 (R) (w) ((1 : ℝ))) = (FacDiff f1 (P) (u) (Q) (v))))) := by
   intro P u Q v R w h
   obtain ⟨hw, hR, hP, hQ, hpos⟩ := h
